@@ -70,46 +70,7 @@ verif_munmap(void *p, size_t len)
 
 #define ZC_ZONEINFO	"/usr/share/zoneinfo"
 
-/* ---- watchdog ---- */
-static volatile uint64_t zc_wd_seen;
-static volatile int zc_wd_ticks;
-static volatile int zc_wd_limit = 4;	/* ticks of 4 ms CPU time within one guarded call */
-
-static void
-zc_wd_vtalrm(int sig)
-{
-	(void)sig;
-	if (!ex_armed) {
-		return;
-	}
-	if (ex_progress != zc_wd_seen) {
-		zc_wd_seen = ex_progress;
-		zc_wd_ticks = 0;
-		return;
-	}
-	if (++zc_wd_ticks >= zc_wd_limit) {
-		ex_armed = 0;
-		siglongjmp(ex_jb, 1);
-	}
-}
-
-static void
-zc_wd_init(void)
-{
-	struct sigaction sa;
-	struct itimerval it;
-
-	/* wall-clock fallback and the fatal-signal handlers of explore.h */
-	ex_wd_init(4000);
-	memset(&sa, 0, sizeof(sa));
-	sa.sa_handler = zc_wd_vtalrm;
-	sa.sa_flags = SA_NODEFER;
-	sigaction(SIGVTALRM, &sa, NULL);
-	it.it_interval.tv_sec = 0;
-	it.it_interval.tv_usec = 4000;
-	it.it_value = it.it_interval;
-	setitimer(ITIMER_VIRTUAL, &it, NULL);
-}
+#include "c12_wd.h"
 
 /* ---- zone sources ---- */
 struct zc_src {
